@@ -79,6 +79,39 @@ class Deep(betterproto.Message):
     w_u64: Optional[int] = betterproto.message_field(17, wraps=betterproto.TYPE_UINT64)
 
 
+class Hue(betterproto.Enum):
+    HUE_NONE = 0
+    HUE_RED = 1
+    HUE_BLUE = 2
+    HUE_NEG = -4
+    HUE_ROSE = 1        # alias
+
+
+@dataclass(eq=False, repr=False)
+class Wide(betterproto.Message):
+    """well-known types, wrappers and enums in every container and presence discipline"""
+    r_ts: List[datetime] = betterproto.message_field(1)
+    r_dur: List[timedelta] = betterproto.message_field(2)
+    p_ts: datetime = betterproto.message_field(3, group="pick")
+    p_dur: timedelta = betterproto.message_field(4, group="pick")
+    p_w: Optional[int] = betterproto.message_field(5, wraps=betterproto.TYPE_INT32, group="pick")
+    p_e: "Hue" = betterproto.enum_field(6, group="pick")
+    e: "Hue" = betterproto.enum_field(7)
+    r_e: List["Hue"] = betterproto.enum_field(8)
+    m_e: Dict[str, "Hue"] = betterproto.map_field(9, betterproto.TYPE_STRING, betterproto.TYPE_ENUM)
+    o_e: Optional["Hue"] = betterproto.enum_field(10, optional=True)
+    o_leaf: Optional["Leaf"] = betterproto.message_field(11, optional=True)
+    o_str: Optional[str] = betterproto.string_field(12, optional=True)
+    o_f32: Optional[float] = betterproto.float_field(13, optional=True)
+    m_i64_leaf: Dict[int, "Leaf"] = betterproto.map_field(14, betterproto.TYPE_SINT64, betterproto.TYPE_MESSAGE)
+    m_bool_str: Dict[bool, str] = betterproto.map_field(15, betterproto.TYPE_BOOL, betterproto.TYPE_STRING)
+    fx: int = betterproto.sfixed64_field(16)
+    r_fx32: List[int] = betterproto.fixed32_field(17)
+    r_sint: List[int] = betterproto.sint32_field(18)
+    o_ts: Optional[datetime] = betterproto.message_field(19, optional=True)
+    big: bytes = betterproto.bytes_field(20)
+
+
 @dataclass(eq=False, repr=False)
 class High(betterproto.Message):
     """field numbers whose tags need 2..5 bytes, in every presence discipline"""
@@ -100,7 +133,7 @@ SCHEMA = {
     "Mid": [("leaf", 1, "message", "", "Leaf"), ("name", 2, "string", "", None), ("pick", 3, "message", "", "Choice")],
     "Hollow": [],
 }
-CLASSES = {"Leaf": Leaf, "Choice": Choice, "Mid": Mid, "Hollow": Hollow, "Deep": Deep, "High": High}
+CLASSES = {"Leaf": Leaf, "Choice": Choice, "Mid": Mid, "Hollow": Hollow, "Deep": Deep, "High": High, "Wide": Wide}
 
 
 # ------------------------------------------------------------------------------------------------ reference classes
@@ -157,6 +190,50 @@ def ref(name):
         for nm, num, w in (("rw_i64", 13, "Int64Value"), ("rw_bytes", 14, "BytesValue"), ("rw_double", 15, "DoubleValue"), ("rw_bool", 16, "BoolValue")):
             mp.field.add(name=nm, number=num, type=FD.TYPE_MESSAGE, label=FD.LABEL_REPEATED, type_name=".google.protobuf." + w)
         mp.field.add(name="w_u64", number=17, type=FD.TYPE_MESSAGE, label=FD.LABEL_OPTIONAL, type_name=".google.protobuf.UInt64Value")
+        en = fdp.enum_type.add(name="Hue")
+        en.options.allow_alias = True
+        for nm, num in (("HUE_NONE", 0), ("HUE_RED", 1), ("HUE_BLUE", 2), ("HUE_NEG", -4), ("HUE_ROSE", 1)):
+            en.value.add(name=nm, number=num)
+        wp = fdp.message_type.add(name="Wide")
+        wp.oneof_decl.add(name="pick")
+        T, G = ".google.protobuf.", f".{pkg}."
+        wp.field.add(name="r_ts", number=1, type=FD.TYPE_MESSAGE, label=FD.LABEL_REPEATED, type_name=T + "Timestamp")
+        wp.field.add(name="r_dur", number=2, type=FD.TYPE_MESSAGE, label=FD.LABEL_REPEATED, type_name=T + "Duration")
+        wp.field.add(name="p_ts", number=3, type=FD.TYPE_MESSAGE, label=FD.LABEL_OPTIONAL, type_name=T + "Timestamp", oneof_index=0)
+        wp.field.add(name="p_dur", number=4, type=FD.TYPE_MESSAGE, label=FD.LABEL_OPTIONAL, type_name=T + "Duration", oneof_index=0)
+        wp.field.add(name="p_w", number=5, type=FD.TYPE_MESSAGE, label=FD.LABEL_OPTIONAL, type_name=T + "Int32Value", oneof_index=0)
+        wp.field.add(name="p_e", number=6, type=FD.TYPE_ENUM, label=FD.LABEL_OPTIONAL, type_name=G + "Hue", oneof_index=0)
+        wp.field.add(name="e", number=7, type=FD.TYPE_ENUM, label=FD.LABEL_OPTIONAL, type_name=G + "Hue")
+        wp.field.add(name="r_e", number=8, type=FD.TYPE_ENUM, label=FD.LABEL_REPEATED, type_name=G + "Hue")
+        e9 = wp.nested_type.add(name="MEEntry")
+        e9.options.map_entry = True
+        e9.field.add(name="key", number=1, type=FD.TYPE_STRING, label=FD.LABEL_OPTIONAL)
+        e9.field.add(name="value", number=2, type=FD.TYPE_ENUM, label=FD.LABEL_OPTIONAL, type_name=G + "Hue")
+        wp.field.add(name="m_e", number=9, type=FD.TYPE_MESSAGE, label=FD.LABEL_REPEATED, type_name=G + "Wide.MEEntry")
+        k = 1
+        for nm, num, ty_, tn in (("o_e", 10, FD.TYPE_ENUM, G + "Hue"), ("o_leaf", 11, FD.TYPE_MESSAGE, G + "Leaf"), ("o_str", 12, FD.TYPE_STRING, None),
+                                  ("o_f32", 13, FD.TYPE_FLOAT, None)):
+            wp.oneof_decl.add(name="_" + nm)
+            f_ = wp.field.add(name=nm, number=num, type=ty_, label=FD.LABEL_OPTIONAL, oneof_index=k, proto3_optional=True)
+            if tn:
+                f_.type_name = tn
+            k += 1
+        e14 = wp.nested_type.add(name="MI64LeafEntry")
+        e14.options.map_entry = True
+        e14.field.add(name="key", number=1, type=FD.TYPE_SINT64, label=FD.LABEL_OPTIONAL)
+        e14.field.add(name="value", number=2, type=FD.TYPE_MESSAGE, label=FD.LABEL_OPTIONAL, type_name=G + "Leaf")
+        wp.field.add(name="m_i64_leaf", number=14, type=FD.TYPE_MESSAGE, label=FD.LABEL_REPEATED, type_name=G + "Wide.MI64LeafEntry")
+        e15 = wp.nested_type.add(name="MBoolStrEntry")
+        e15.options.map_entry = True
+        e15.field.add(name="key", number=1, type=FD.TYPE_BOOL, label=FD.LABEL_OPTIONAL)
+        e15.field.add(name="value", number=2, type=FD.TYPE_STRING, label=FD.LABEL_OPTIONAL)
+        wp.field.add(name="m_bool_str", number=15, type=FD.TYPE_MESSAGE, label=FD.LABEL_REPEATED, type_name=G + "Wide.MBoolStrEntry")
+        wp.field.add(name="fx", number=16, type=FD.TYPE_SFIXED64, label=FD.LABEL_OPTIONAL)
+        wp.field.add(name="r_fx32", number=17, type=FD.TYPE_FIXED32, label=FD.LABEL_REPEATED)
+        wp.field.add(name="r_sint", number=18, type=FD.TYPE_SINT32, label=FD.LABEL_REPEATED)
+        wp.oneof_decl.add(name="_o_ts")
+        wp.field.add(name="o_ts", number=19, type=FD.TYPE_MESSAGE, label=FD.LABEL_OPTIONAL, type_name=T + "Timestamp", oneof_index=k, proto3_optional=True)
+        wp.field.add(name="big", number=20, type=FD.TYPE_BYTES, label=FD.LABEL_OPTIONAL)
         hp = fdp.message_type.add(name="High")
         hp.oneof_decl.add(name="pick")
         hp.oneof_decl.add(name="_o2048")
@@ -174,7 +251,7 @@ def ref(name):
             pool.Add(fdp)
         except Exception:
             pass
-        for n in list(SCHEMA) + ["Deep", "High"]:
+        for n in list(SCHEMA) + ["Deep", "High", "Wide"]:
             _REF[n] = message_factory.GetMessageClass(pool.FindMessageTypeByName(f"{pkg}.{n}"))
     return _REF[name]
 
@@ -206,7 +283,7 @@ def view(m, role="top"):
             if isinstance(raw, (betterproto.Message, timedelta, datetime)):
                 fields[name] = "<absent>"
                 continue
-        fields[name] = value_view(raw, in_group=bool(fm.group))
+        fields[name] = value_view(raw, in_group=bool(fm.group) or bool(fm.optional))     # optional: present by not being None
     d = {"sel": sel, "unknown": bytes(m._unknown_fields).hex(), "fields": fields}
     if role == "field":
         blank = d["unknown"] == "" and all(v is None for v in sel.values()) and all(
@@ -251,6 +328,10 @@ def same(a, b):
     return json.dumps(view(a), sort_keys=True, default=str) == json.dumps(view(b), sort_keys=True, default=str)
 
 
+def has_nan(m):
+    return "f:nan" in json.dumps(view(m), default=str)
+
+
 def nested_unknown(m):
     for name in m._betterproto.sorted_field_names:
         v = m.__dict__.get(name, betterproto.PLACEHOLDER)
@@ -275,28 +356,34 @@ def to_ref(m):
                 if isinstance(x, betterproto.Message):
                     getattr(r, name)[k].CopyFrom(to_ref(x))
                 else:
-                    getattr(r, name)[k] = x
+                    getattr(r, name)[k] = int(x) if isinstance(x, betterproto.Enum) else x
         elif isinstance(v, list):
             for x in v:
                 if isinstance(x, betterproto.Message):
                     getattr(r, name).add().CopyFrom(to_ref(x))
                 elif meta.wraps:
                     getattr(r, name).add().value = x
+                elif isinstance(x, datetime):
+                    getattr(r, name).add().FromDatetime(x.astimezone(timezone.utc).replace(tzinfo=None))
+                elif isinstance(x, timedelta):
+                    getattr(r, name).add().FromTimedelta(x)
                 else:
-                    getattr(r, name).append(x)
+                    getattr(r, name).append(int(x) if isinstance(x, betterproto.Enum) else x)
         elif meta.wraps:
             if v is not None:
                 getattr(r, name).value = v
         elif v is None:
             continue
+        elif isinstance(v, betterproto.Enum):
+            setattr(r, name, int(v))
         elif isinstance(v, betterproto.Message):
-            if betterproto.serialized_on_wire(v) or meta.group:
+            if betterproto.serialized_on_wire(v) or meta.group or meta.optional:
                 getattr(r, name).CopyFrom(to_ref(v))
         elif isinstance(v, timedelta):
-            if v or meta.group:           # a zero Duration in a plain field is not representable as present
+            if v or meta.group or meta.optional:           # a zero Duration in a plain field is not representable as present
                 getattr(r, name).FromTimedelta(v)
         elif isinstance(v, datetime):
-            if v != EPOCH or meta.group:
+            if v != EPOCH or meta.group or meta.optional:
                 getattr(r, name).FromDatetime(v.astimezone(timezone.utc).replace(tzinfo=None))
         else:
             setattr(r, name, v)
@@ -330,6 +417,64 @@ TIMES = [("epoch", EPOCH), ("epoch+1us", EPOCH + timedelta(microseconds=1)), ("e
          ("0001-01-01", datetime(1, 1, 1, tzinfo=timezone.utc)), ("0999-12-31T23:59:59.123456", datetime(999, 12, 31, 23, 59, 59, 123456, tzinfo=timezone.utc)),
          ("9999-12-31T23:59:59.999999", datetime(9999, 12, 31, 23, 59, 59, 999999, tzinfo=timezone.utc)),
          ("1960-06-15T01:02:03.25-08:00", datetime(1960, 6, 15, 1, 2, 3, 250000, tzinfo=_tz(-8)))]
+
+
+def wide_instances():
+    T1, T2 = EPOCH + timedelta(seconds=1, microseconds=5), datetime(1960, 6, 15, 1, 2, 3, 250000, tzinfo=_tz(-8))
+    D1, D2 = timedelta(microseconds=-500000), timedelta(days=400, microseconds=1)
+    und = lambda n: Hue.try_value(n)
+    out = [("Wide()", lambda: Wide())]
+    singles = [
+        ("r_ts=[T1, EPOCH, T2]", lambda: Wide(r_ts=[T1, EPOCH, T2])), ("r_dur=[D1, 0, D2]", lambda: Wide(r_dur=[D1, timedelta(0), D2])),
+        ("p_ts=EPOCH", lambda: Wide(p_ts=EPOCH)), ("p_ts=T2", lambda: Wide(p_ts=T2)), ("p_dur=0", lambda: Wide(p_dur=timedelta(0))), ("p_dur=D1", lambda: Wide(p_dur=D1)),
+        ("p_w=0", lambda: Wide(p_w=0)), ("p_w=-7", lambda: Wide(p_w=-7)), ("p_e=HUE_NONE", lambda: Wide(p_e=Hue.HUE_NONE)), ("p_e=HUE_NEG", lambda: Wide(p_e=Hue.HUE_NEG)),
+        ("p_e=undefined 9", lambda: Wide(p_e=und(9))), ("e=HUE_ROSE", lambda: Wide(e=Hue.HUE_ROSE)), ("e=HUE_NEG", lambda: Wide(e=Hue.HUE_NEG)), ("e=undefined -9", lambda: Wide(e=und(-9))),
+        ("e=7 (plain int)", lambda: Wide(e=7)), ("r_e=[NONE, RED, NEG, undefined 9]", lambda: Wide(r_e=[Hue.HUE_NONE, Hue.HUE_RED, Hue.HUE_NEG, und(9)])),
+        ("m_e={'': NONE, 'a': BLUE, 'u': undefined 12}", lambda: Wide(m_e={"": Hue.HUE_NONE, "a": Hue.HUE_BLUE, "u": und(12)})),
+        ("o_e=HUE_NONE", lambda: Wide(o_e=Hue.HUE_NONE)), ("o_e=HUE_BLUE", lambda: Wide(o_e=Hue.HUE_BLUE)), ("o_leaf=Leaf()", lambda: Wide(o_leaf=Leaf())),
+        ("o_leaf=Leaf(n=4)", lambda: Wide(o_leaf=Leaf(n=4))), ("o_str=''", lambda: Wide(o_str="")), ("o_str='s'", lambda: Wide(o_str="s")), ("o_f32=0.0", lambda: Wide(o_f32=0.0)),
+        ("o_f32=-0.0", lambda: Wide(o_f32=-0.0)), ("o_f32=1.5", lambda: Wide(o_f32=1.5)), ("m_i64_leaf={0: Leaf(), -64: Leaf(n=1), 2**62: Leaf(n=-1)}", lambda: Wide(m_i64_leaf={0: Leaf(), -64: Leaf(n=1), 2**62: Leaf(n=-1)})),
+        ("m_bool_str={False: '', True: 't'}", lambda: Wide(m_bool_str={False: "", True: "t"})), ("fx=-2**63", lambda: Wide(fx=-2**63)), ("fx=2**63-1", lambda: Wide(fx=2**63 - 1)),
+        ("r_fx32=[0, 2**32-1]", lambda: Wide(r_fx32=[0, 2**32 - 1])), ("r_sint=[-64, 63, -2**31, 2**31-1]", lambda: Wide(r_sint=[-64, 63, -2**31, 2**31 - 1])),
+        ("o_ts=EPOCH", lambda: Wide(o_ts=EPOCH)), ("o_ts=T1", lambda: Wide(o_ts=T1)), ("big=127 bytes", lambda: Wide(big=b"\x01" * 127)), ("big=128 bytes", lambda: Wide(big=b"\x01" * 128)),
+        ("big=16384 bytes", lambda: Wide(big=b"\x02" * 16384)),
+    ]
+    out += [("Wide(%s)" % t, f) for t, f in singles]
+    out.append(("Wide(several)", lambda: Wide(r_ts=[T1], p_e=Hue.HUE_BLUE, e=Hue.HUE_RED, r_e=[Hue.HUE_BLUE], o_e=Hue.HUE_NONE, o_leaf=Leaf(n=2), o_str="", m_bool_str={True: ""}, fx=5, big=b"z")))
+    return out
+
+
+def history_instances(rnd, n):
+    """messages reached by seeded random operation histories on a Deep (assignments at every depth, in-place container
+    changes, reads, observers, decode-merges); the factory replays the recorded history on a fresh message"""
+    ops = [
+        ("m.mid.name = 'h'", lambda m: setattr(m.mid, "name", "h")), ("m.mid.name = ''", lambda m: setattr(m.mid, "name", "")),
+        ("m.mid.leaf = Leaf(n=2)", lambda m: setattr(m.mid, "leaf", Leaf(n=2))), ("m.mid = Mid()", lambda m: setattr(m, "mid", Mid())),
+        ("m.one = Choice(count=0)", lambda m: setattr(m, "one", Choice(count=0))), ("m.one.label = 'L'", lambda m: setattr(m.one, "label", "L")),
+        ("m.one.flag = False", lambda m: setattr(m.one, "flag", False)), ("m.one.leaf = Leaf()", lambda m: setattr(m.one, "leaf", Leaf())),
+        ("m.r_d.append(1.5)", lambda m: m.r_d.append(1.5)), ("m.r_d.clear()", lambda m: m.r_d.clear()), ("m.r_d = [0.0]", lambda m: setattr(m, "r_d", [0.0])),
+        ("m.r_choice.append(Choice(flag=True))", lambda m: m.r_choice.append(Choice(flag=True))), ("m.r_choice.append(Choice())", lambda m: m.r_choice.append(Choice())),
+        ("m.m_choice['k'] = Choice(label='')", lambda m: m.m_choice.__setitem__("k", Choice(label=""))), ("m.m_choice.pop('k', None)", lambda m: m.m_choice.pop("k", None)),
+        ("m.m_d['x'] = -0.0", lambda m: m.m_d.__setitem__("x", -0.0)), ("m.m_f[3] = 1.5", lambda m: m.m_f.__setitem__(3, 1.5)),
+        ("m.hollow = Hollow()", lambda m: setattr(m, "hollow", Hollow())), ("m.dur = 1.5s", lambda m: setattr(m, "dur", timedelta(seconds=1, microseconds=500000))),
+        ("m.ts = EPOCH + 1s", lambda m: setattr(m, "ts", EPOCH + timedelta(seconds=1))), ("m.rw_i64.append(0)", lambda m: m.rw_i64.append(0)),
+        ("m.w_u64 = 0", lambda m: setattr(m, "w_u64", 0)), ("m.w_u64 = None", lambda m: setattr(m, "w_u64", None)),
+        ("read m.mid.leaf.n", lambda m: m.mid.leaf.n), ("read m.one", lambda m: m.one), ("len(m)", lambda m: len(m)), ("bytes(m)", lambda m: bytes(m)),
+        ("m.to_dict()", lambda m: m.to_dict()), ("m == Deep()", lambda m: m == Deep()), ("repr(m)", lambda m: repr(m)),
+        ("m.parse(r_d += [2.5])", lambda m: m.parse(bytes.fromhex("52080000000000000440"))), ("m.parse(one.count = 9)", lambda m: m.parse(bytes.fromhex("1a020809"))),
+        ("m.parse(unknown 30)", lambda m: m.parse(bytes.fromhex("f00107"))), ("m.parse(mid.name='p')", lambda m: m.parse(bytes.fromhex("4a03120170"))),
+    ]
+    out = []
+    for _ in range(n):
+        hist = [rnd.choice(ops) for _ in range(rnd.randint(2, 7))]
+
+        def make(hist=hist):
+            m = Deep()
+            for _, f in hist:
+                f(m)
+            return m
+        out.append(("Deep(); " + "; ".join(t for t, _ in hist), make))
+    return out
 
 
 def instances(rnd, n):
@@ -372,6 +517,8 @@ def instances(rnd, n):
     out.append(("Deep(w_u64=0)", lambda: Deep(w_u64=0)))
     out.append(("Deep(w_u64=2**64-1)", lambda: Deep(w_u64=2**64 - 1)))
     out.append(("Deep().parse(rw_i64 = [default element, 7])", lambda: Deep().parse(bytes.fromhex("6a006a020807"))))
+    out += wide_instances()
+    out += history_instances(rnd, max(20, n // 5))
     base = list(out)
     while len(out) < n:
         parts = [rnd.choice(base) for _ in range(rnd.randint(2, 4))]
@@ -380,6 +527,8 @@ def instances(rnd, n):
             m = Deep()
             for _, f in parts:
                 src = f()
+                if not isinstance(src, Deep):
+                    continue
                 for name in src._betterproto.sorted_field_names:
                     v = src.__dict__.get(name, betterproto.PLACEHOLDER)
                     if v is not betterproto.PLACEHOLDER:
@@ -443,15 +592,15 @@ def rel_C02(col, how, make):
     b = guard(col, "encode", how, lambda: bytes(m))
     if b is None:
         return
-    r2 = ref("Deep")()
+    r2 = ref(type(m).__name__)()
     try:
         r2.ParseFromString(b)
     except Exception as e:
         col.fail("reference-rejects-our-bytes", how, f"{b.hex()}: {e}")
         return
-    if r2.SerializeToString(deterministic=True) != rb and not any(isinstance(x, float) and x != x for x in list(m.m_f.values()) + list(m.m_d.values()) + list(m.r_d)):
+    if r2.SerializeToString(deterministic=True) != rb and not has_nan(m):
         col.fail("reference-decodes-our-bytes-differently", how, f"ours={b.hex()} reference={rb.hex()}")
-    back = guard(col, "decode-reference-bytes", how, lambda: Deep().parse(rb))
+    back = guard(col, "decode-reference-bytes", how, lambda: type(m)().parse(rb))
     if back is not None and not same(back, make()):
         col.fail("we-decode-reference-bytes-differently", how, f"reference bytes {rb.hex()} -> {norm(obs(back))} expected {norm(obs(make()))}")
 
@@ -471,6 +620,8 @@ def rel_C09(col, how, make):
         col.fail("delimited-dump-differs", how, f"{s.getvalue().hex()} expected {exp.hex()}")
     # the size is a function of the current state: measure, change the message in place (through containers and
     # nested objects, i.e. without assigning a field of m itself), measure again
+    if not isinstance(m, Deep):
+        return
     steps = [("r_d.append", lambda: m.r_d.append(2.5)), ("m_d[k]=", lambda: m.m_d.__setitem__("zz", 1.5)),
              ("mid.leaf.n=", lambda: setattr(m.mid.leaf, "n", 300)), ("r_choice.append", lambda: m.r_choice.append(Choice(label="x" * 130))),
              ("m_choice[k]=", lambda: m.m_choice.__setitem__("q", Choice(count=7))), ("parse-merge", lambda: m.parse(bytes.fromhex("52080000000000000440"))),
@@ -497,7 +648,7 @@ def rel_C08(col, how, make):
     b = guard(col, "encode", how, lambda: bytes(m))
     if b is None:
         return
-    back = guard(col, "decode", how, lambda: Deep().parse(b))
+    back = guard(col, "decode", how, lambda: type(m)().parse(b))
     if back is None:
         return
     if bytes(back) != b:
@@ -505,14 +656,14 @@ def rel_C08(col, how, make):
     # the same message as the reference encodes it (it keeps unknown fields of nested messages too): decoding and
     # re-encoding those bytes must be invisible to the reference
     def refnorm(x):
-        r = ref("Deep")()
+        r = ref(type(m).__name__)()
         r.ParseFromString(x)
         return r.SerializeToString(deterministic=True)
     try:
         rb = refnorm(b)
     except Exception:
         return
-    back2 = guard(col, "decode-reference-bytes", how, lambda: Deep().parse(rb))
+    back2 = guard(col, "decode-reference-bytes", how, lambda: type(m)().parse(rb))
     if back2 is not None:
         try:
             again = refnorm(bytes(back2))
@@ -533,7 +684,10 @@ def rel_C06(col, how, make):
 
     def reads():
         for name in m._betterproto.sorted_field_names:
-            v = getattr(m, name)
+            try:
+                v = getattr(m, name)
+            except AttributeError:
+                continue            # an unselected oneof member
             if isinstance(v, betterproto.Message):
                 for n2 in v._betterproto.sorted_field_names:
                     try:
@@ -724,9 +878,9 @@ def rel_C07(col, how, make):
                 for y in (v if isinstance(v, list) else (list(v.values()) if isinstance(v, dict) else [v])):
                     if isinstance(y, betterproto.Message):
                         yield from walk(y)
-    for stage, obj in (("as built", m), ("decoded", guard(col, "decode", how, lambda: Deep().parse(bytes(make())))),
+    for stage, obj in (("as built", m), ("decoded", guard(col, "decode", how, lambda: type(m)().parse(bytes(make())))),
                        ("deepcopy", guard(col, "deepcopy", how, lambda: copy.deepcopy(make()))),
-                       ("from_dict", guard(col, "from_dict", how, lambda: Deep().from_dict(make().to_dict())) if not nested_unknown(m) and not m._unknown_fields else None)):
+                       ("from_dict", guard(col, "from_dict", how, lambda: type(m)().from_dict(make().to_dict())) if not nested_unknown(m) and not m._unknown_fields else None)):
         if obj is None:
             continue
         for c in walk(obj):
@@ -765,8 +919,8 @@ def rel_C04(col, how, make):
         d = guard(col, "to_dict", how, lambda: m.to_dict(casing=casing))
         if d is None:
             return
-        for label, back in (("from_dict", lambda: Deep().from_dict(d)), ("classmethod-from_dict", lambda: Deep.from_dict(d)),
-                            ("json-text", lambda: Deep().from_json(json.dumps(d)))):
+        for label, back in (("from_dict", lambda: type(m)().from_dict(d)), ("classmethod-from_dict", lambda: type(m).from_dict(d)),
+                            ("json-text", lambda: type(m)().from_json(json.dumps(d)))):
             b = guard(col, label, how, back)
             if b is None:
                 continue
@@ -778,7 +932,7 @@ def rel_C04(col, how, make):
 
 def rel_C04_more(col, how, make):
     m = make()
-    if nested_unknown(m) or m._unknown_fields:
+    if nested_unknown(m) or m._unknown_fields or not isinstance(m, Deep):
         return
     # (from_pydict is not part of any listed property: to_pydict is only checked for purity, under C14)
     for cname, casing in (("CAMEL", betterproto.Casing.CAMEL), ("SNAKE", betterproto.Casing.SNAKE)):
@@ -830,7 +984,13 @@ def rel_C14(col, how, make):
     for label, f in (("bytes", lambda x: bytes(x)), ("len", lambda x: len(x)), ("eq", lambda x: x == make()), ("repr", lambda x: repr(x)),
                      ("bool", lambda x: bool(x)), ("to_dict", lambda x: x.to_dict()), ("to_json", lambda x: x.to_json()),
                      ("to_pydict", lambda x: x.to_pydict()), ("to_dict-defaults", lambda x: x.to_dict(include_default_values=True))):
-        guard(col, "observer-" + label, how, lambda: f(m))
+        if label == "to_pydict":
+            try:
+                f(m)            # (to_pydict raising on some valid message is not a purity question; see DESIGN I.5)
+            except Exception:
+                pass
+        else:
+            guard(col, "observer-" + label, how, lambda: f(m))
         if bytes(m) != b0:
             col.fail(f"observer-{label}-changes-the-encoding", how, f"{b0.hex()} -> {bytes(m).hex()}")
             return
@@ -998,7 +1158,7 @@ def main(argv=None):
                 except Exception as e:
                     col.fail("harness:" + type(e).__name__, how, traceback.format_exc()[-400:])
         if a.prop in ("C01", "C02", "C08"):
-            inst = instances(rnd, a.n)
+            inst = [x for x in instances(rnd, a.n) if x[0].startswith(("Deep", "merge of"))]
             base = inst[:140]
             pairs = [(rnd.choice(base), rnd.choice(base)) for _ in range(a.n)]
             carriers = [("Deep().parse(unknown varint 30)", lambda: Deep().parse(bytes.fromhex("f00107"))),
